@@ -48,7 +48,7 @@ type task struct {
 
 type key struct {
 	cache   *data
-	blocked []ids.ID
+	blocked []*tx
 }
 
 type data struct {
@@ -113,8 +113,7 @@ func (f *Fetcher) set(k string, v []byte, exists bool, chunks uint16) {
 	// Puts a key that was fetched from data into cache
 	key := f.keys[k]
 	key.cache = &data{v, exists, chunks}
-	for _, id := range key.blocked {
-		tx := f.txs[id]
+	for _, tx := range key.blocked {
 		tx.blockers--
 		if tx.blockers == 0 {
 			close(tx.waiter)
@@ -147,14 +146,14 @@ func (f *Fetcher) Fetch(ctx context.Context, txID ids.ID, keys []string) error {
 		return f.err
 	}
 	var (
-		tx       = &tx{keys: keys}
+		waiting  = &tx{keys: keys}
 		tasks    = make([]*task, 0, len(keys))
 		blockers = 0
 	)
 	for _, k := range keys {
 		d, ok := f.keys[k]
 		if !ok {
-			f.keys[k] = &key{blocked: []ids.ID{txID}}
+			f.keys[k] = &key{blocked: []*tx{waiting}}
 			tasks = append(tasks, &task{
 				ctx: ctx,
 				key: k,
@@ -169,14 +168,14 @@ func (f *Fetcher) Fetch(ctx context.Context, txID ids.ID, keys []string) error {
 		}
 
 		// Register to get notified when the key is fetched
-		d.blocked = append(d.blocked, txID)
+		d.blocked = append(d.blocked, waiting)
 		blockers++
 	}
 	if blockers > 0 {
-		tx.blockers = blockers
-		tx.waiter = make(chan struct{})
+		waiting.blockers = blockers
+		waiting.waiter = make(chan struct{})
 	}
-	f.txs[txID] = tx
+	f.txs[txID] = waiting
 	f.l.Unlock()
 
 	// Send fetch tasks to the workers or exit
